@@ -92,6 +92,9 @@ CouponHashSet<A>* CouponHashSet<A>::newSet(const void* bytes, size_t len, const 
   if (lgArrInts < hll_constants::LG_INIT_SET_SIZE) {
     lgArrInts = HllUtil<>::computeLgArrInts(SET, couponCount, lgK);
   }
+  if (lgArrInts > lgK - 3) { // the set is promoted to HLL instead of growing beyond this
+    throw std::invalid_argument("Invalid CouponHashSet array size: lgArrInts " + std::to_string(lgArrInts));
+  }
   // Don't set couponCount in sketch here;
   // we'll set later if updatable, and increment with updates if compact
   const uint32_t couponsInArray = (compactFlag ? couponCount : (1 << lgArrInts));
@@ -159,6 +162,9 @@ CouponHashSet<A>* CouponHashSet<A>::newSet(std::istream& is, const A& allocator)
     throw std::runtime_error("error reading from std::istream");
   if (lgArrInts < hll_constants::LG_INIT_SET_SIZE) {
     lgArrInts = HllUtil<>::computeLgArrInts(SET, couponCount, lgK);
+  }
+  if (lgArrInts > lgK - 3) { // the set is promoted to HLL instead of growing beyond this
+    throw std::invalid_argument("Invalid CouponHashSet array size: lgArrInts " + std::to_string(lgArrInts));
   }
 
   ChsAlloc chsa(allocator);
